@@ -551,7 +551,7 @@ def _regressions():
     known_findings.json is exercised by every run)"""
     rd = lambda t, r, ty, hdr, rows: {"tensor": t, "rank": r, "type": ty, "access": "read", "header": hdr, "rows": rows}
     wr = lambda t, r, ty, hdr, rows: {"tensor": t, "rank": r, "type": ty, "access": "write", "header": hdr, "rows": rows}
-    # F2: two lines of one binding whose next uses carry the same stamp, in swapped order -> AssertionError
+    # (fixed) two lines of one binding whose next uses carry the same stamp, in swapped order used to raise
     tens = [{"name": "A", "ranks": ["M"], "shape": [8]}]
     yield _case("cache", tens, [{"tensor": "A", "rank": "M", "type": "payload"}],
                 [rd("A", "M", "payload", ["M"], [[0, 1, 1], [0, 0, 0], [1, 0, 0], [1, 1, 1]])],
@@ -569,7 +569,7 @@ def _regressions():
     yield _case("cache", tens, [{"tensor": "Z", "rank": "M", "type": "payload"},
                                 {"tensor": "Z", "rank": "N", "type": "payload"}],
                 copy.deepcopy(tr), 32, [64], kind="regression")
-    # F4: closing a pinned (staging) line pops the list element of ANOTHER binding with the same line tuple
+    # (fixed) closing a pinned (staging) line used to pop the list element of ANOTHER binding with the same line tuple
     tens = [{"name": "A", "ranks": ["K"], "shape": [2]}]
     yield _case("cache", tens, [{"tensor": "A", "rank": "K", "type": "coord"}, {"tensor": "A", "rank": "K", "type": "payload"}],
                 [rd("A", "K", "coord", ["M", "K"], [[0, 1, 1, 0, 0], [1, 7, 2, 2, 1]]),
@@ -628,10 +628,8 @@ def signature(case, verdict, failed):
     crash = "crash" in kinds
     if op == "cache" and agree and "spec" in fs and set(fs) <= {"spec", "TEST_bruteforce_optimal_fills"} \
             and "jitter" not in kinds:
-        if "explained:pinned-pop-other-binding" in t and fs == ["spec"]:
-            return "cache:%s:pinned-pop-other-binding" % ("AssertionError" if crash else "wrong-traffic")
-        if "explained:stamp-tie" in t:
-            return "cache:%s:stamp-tie" % ("AssertionError" if crash else "suboptimal")
+        if "explained:stamp-tie" in t and not crash:
+            return "cache:suboptimal:stamp-tie"
     if op in ("buffet", "cache") and agree and fs == ["spec"] and not crash and "jitter" not in kinds:
         if kinds == ["monotone"] and "overflow" in t and "MODEL-NOT-SPEC" not in t:
             return "cache:nonmonotone:overflow"
